@@ -286,7 +286,8 @@ fn drive_sorters(ctx: &mut Ctx, rng: &mut Rng) {
 #[allow(clippy::too_many_lines)]
 pub fn case(ctx: &mut Ctx, idx: u64) {
     let mut rng = Rng::for_case(ctx.seed, "C06", idx);
-    let kind = rng.below(10);
+    let small = ctx.param_u64("small", 0) == 1; // Miri-sized inputs
+    let kind = if small { *rng.pick(&[2u64, 6, 8, 2]) } else { rng.below(10) };
     let mut expected_sounds: Option<HashMap<(i64, i64), u8>> = None;
     let (bytes, tag): (Vec<u8>, String) = match kind {
         0 | 1 => {
@@ -309,7 +310,7 @@ pub fn case(ctx: &mut Ctx, idx: u64) {
                 &osu::GenOpts {
                     profile: p,
                     mode: None,
-                    max_objects: 60,
+                    max_objects: if small { 6 } else { 60 },
                 },
             );
             (f.render().into_bytes(), format!("gram:{}", p.name()))
@@ -321,7 +322,10 @@ pub fn case(ctx: &mut Ctx, idx: u64) {
             (osu::mutate_text(&mut rng, &base, n_mut, false).into_bytes(), "mut".into())
         }
         6 | 7 => {
-            let (f, exp) = pairing_file(&mut rng);
+            let (mut f, exp) = pairing_file(&mut rng);
+            if small {
+                f.objects.truncate(6);
+            }
             expected_sounds = Some(exp);
             (f.render().into_bytes(), "pairing".into())
         }
@@ -336,7 +340,7 @@ pub fn case(ctx: &mut Ctx, idx: u64) {
                 },
             );
             let times = ["0", "-0", "0.0", "-0.0", "100", "100.0", "1e2", "-100", "99.99999999999999", "NaN"];
-            for _ in 0..rng.range(2, 40) {
+            for _ in 0..rng.range(2, if small { 8 } else { 40 }) {
                 f.timing.push(TimingLine {
                     time: (*rng.pick(&times)).to_string(),
                     beat_len: (*rng.pick(&["300", "-100", "-50", "NaN", "500", "-0", "0", "1e-320", "-200"])).to_string(),
@@ -434,7 +438,7 @@ pub fn case(ctx: &mut Ctx, idx: u64) {
 
     compare_paths(ctx, &bytes, &input_repr, &tag, idx);
 
-    if idx % 8 == 0 {
+    if idx % 8 == 0 && !small {
         drive_sorters(ctx, &mut rng);
     }
     ctx.sample(|| format!("src={tag} bytes={} mode={:?} objects={} timing={} ", bytes.len(), map.mode, map.hit_objects.len(), map.timing_points.len()));
